@@ -452,7 +452,7 @@ def try_replay(world, kind, name, prop_id, ob, verdict, pr):
     return res
 
 
-def replay_with_model(world, contract, replay_state, pc, m):
+def replay_with_model(world, contract, replay_state, pc, m, axioms=None):
     func = world.repo.function(contract.qualname)
     env0, expected = replay_state
     pins = []
@@ -461,6 +461,15 @@ def replay_with_model(world, contract, replay_state, pc, m):
         args = {k: concretize(m, v, pins, budget) for k, v in env0.items()}
     except TooLarge as e:
         return {'status': 'not-attempted', 'detail': str(e)}
+    if axioms:
+        # the quantified class invariants are not part of the path condition the sample came from: an input
+        # that violates them is not an input of the contract
+        s_ = z3.Solver()
+        s_.set('timeout', 5000)
+        for p_ in list(pc) + pins + list(axioms):
+            s_.add(p_)
+        if s_.check() == z3.unsat:
+            return {'status': 'invalid-input', 'detail': 'sampled input violates a class invariant / axiom of the path'}
     order = prove.param_names(func)
     try:
         nat = run_native(contract.qualname, args, order, world.repo.root)
